@@ -1,8 +1,8 @@
 SPECIFICATION Spec
 CONSTANTS KnownDevs = {}
 INVARIANTS
-  C14_EndMarkersToOldTunnelOnce
   InEnvelope
+  C14_EndMarkersToOldTunnelOnce
 POSTCONDITION TraceAccepted
 ALIAS Alias
 CHECK_DEADLOCK FALSE
